@@ -22,6 +22,7 @@ verification inside kryptology, which is not modelled.
 import CharonV.Proofs.Frost
 import CharonV.Props.C08
 import CharonV.Proofs.TblsFr
+import CharonV.Proofs.FrostP2P
 
 namespace CharonV.Frost
 
@@ -237,6 +238,147 @@ theorem round1_keys_spec (self : Nat) (vals targets : List Nat) (k : MsgKey) :
     · rintro ⟨hv, hs, ht⟩; exact ⟨k.valIdx, hv, k.targetID, ht, by cases k; simp_all⟩
 
 end CharonV.FrostGlue
+
+/-! ### Part C — the real transport's receive side (`dkg/frostp2p.go`, model `Model/FrostP2P.lean`)
+
+`newBcastCallback` / `newP2PCallback` decide per delivered message (queue, drop as duplicate, refuse);
+`frostP2P.Round1` / `Round2` then collect *by count*. The theorems quantify over every delivery
+sequence: any order, any number of re-deliveries of identical messages, any invalid messages
+interleaved (from non-members always; for shares also from members). -/
+
+namespace CharonV.FrostP2P
+
+/-- **One message per peer, validated.** After any delivery sequence whatsoever each of the three
+queues holds only messages of cluster members that passed validation, and no two of the same
+sender (`Inv`). -/
+theorem queues_one_message_per_peer (c : Cfg) (d1 dp d2 : List Msg) :
+    Inv c 0 (some c.t) (runCb (bcastCb c (some c.t)) {} d1) ∧
+    Inv c c.self none (runCb (p2pCb c) {} dp) ∧
+    Inv c 0 none (runCb (bcastCb c none) {} d2) :=
+  ⟨runCb_inv (P := Inv c 0 (some c.t)) _ (fun s m h => bcastCb_inv c _ s m h) d1 _ (inv_empty ..),
+   runCb_inv (P := Inv c c.self none) _ (fun s m h => p2pCb_inv c s m h) dp _ (inv_empty ..),
+   runCb_inv (P := Inv c 0 none) _ (fun s m h => bcastCb_inv c _ s m h) d2 _ (inv_empty ..)⟩
+
+/-- **Round 1 returns exactly one cast from every node and one share message from every other
+node — duplicates never displace a distinct peer's message.** For every delivery sequence
+`d1`/`dp` allowed by `Fair1` and every order `evs` in which the loop's `select` receives the
+channel contents (own broadcast + queued casts; queued shares): the loop never fails with "too
+many"; whenever it returns, it returns the genuine cast of each of the `n` nodes and the genuine
+share message of each of the `n-1` others, each exactly once; and it does return once every peer's
+genuine messages have been delivered (at least once, anywhere in the sequence). -/
+theorem round1_one_from_each_peer (c : Cfg) (hself : 1 ≤ c.self ∧ c.self ≤ c.n)
+    (d1 dp : List Msg) (hf : Fair1 c d1 dp) (evs : List (Bool × Msg))
+    (hev1 : (castsOf evs).Perm (genCast1 c c.self :: (runCb (bcastCb c (some c.t)) {} d1).queue))
+    (hevp : (p2psOf evs).Perm (runCb (p2pCb c) {} dp).queue) :
+    collect1 c.n evs [] [] ≠ .tooMany ∧
+    (∀ cs ps, collect1 c.n evs [] [] = .done cs ps →
+      cs.length = c.n ∧ (cs.map (·.sender)).Nodup ∧ (∀ p, 1 ≤ p ∧ p ≤ c.n → genCast1 c p ∈ cs) ∧
+      ps.length = c.n - 1 ∧ (ps.map (·.sender)).Nodup ∧
+      (∀ p, (1 ≤ p ∧ p ≤ c.n) ∧ p ≠ c.self → genP2P c p ∈ ps)) ∧
+    ((∀ p, (1 ≤ p ∧ p ≤ c.n) ∧ p ≠ c.self → genCast1 c p ∈ d1 ∧ genP2P c p ∈ dp) →
+      ∃ cs ps, collect1 c.n evs [] [] = .done cs ps) := by
+  obtain ⟨hnd1, hm1, hg1⟩ := cast_list_facts c (some c.t) (genCast1 c) (fun _ => rfl) hself d1
+    hf.notSelf1 hf.honest1 _ hev1
+  obtain ⟨hndp, hmp, hgp⟩ := p2p_list_facts c dp hf.notSelfP hf.honestP _ hevp
+  obtain ⟨hlen1, hcov1⟩ := exact_cover c.n _ hnd1 hm1
+  obtain ⟨hlenp, hcovp⟩ := exact_cover_others c.n c.self hself _ hndp hmp
+  have hshape := collect1_shape c.n evs [] [] (by simpa using hlen1) (by simpa using hlenp)
+  simp only [List.nil_append] at hshape
+  have hdone : ∀ cs ps, collect1 c.n evs [] [] = .done cs ps →
+      cs.length = c.n ∧ (cs.map (·.sender)).Nodup ∧ (∀ p, 1 ≤ p ∧ p ≤ c.n → genCast1 c p ∈ cs) ∧
+      ps.length = c.n - 1 ∧ (ps.map (·.sender)).Nodup ∧
+      (∀ p, (1 ≤ p ∧ p ≤ c.n) ∧ p ≠ c.self → genP2P c p ∈ ps) := by
+    intro cs ps h
+    rcases hshape with ⟨cs', ps', h', hl1, hl2, hp1, hp2⟩ | h'
+    · rw [h'] at h
+      simp only [CRes.done.injEq] at h
+      obtain ⟨rfl, rfl⟩ := h
+      obtain ⟨he1, hc1⟩ := hcov1 _ hp1 hl1
+      obtain ⟨he2, hc2⟩ := hcovp _ hp2 hl2
+      refine ⟨hl1, he1 ▸ hnd1, ?_, hl2, he2 ▸ hndp, ?_⟩
+      · intro p hp
+        obtain ⟨m, hm, hs⟩ := hc1 p hp
+        have := hg1 m (he1 ▸ hm)
+        rw [hs] at this; rw [← this]; exact hm
+      · intro p hp
+        obtain ⟨m, hm, hs⟩ := hc2 p hp
+        have := hgp m (he2 ▸ hm)
+        rw [hs] at this; rw [← this]; exact hm
+    · rw [h'] at h; cases h
+  refine ⟨?_, hdone, ?_⟩
+  · rcases hshape with ⟨cs', ps', h', _⟩ | h' <;> rw [h'] <;> simp
+  · intro hall
+    rcases hshape with ⟨cs', ps', h', _⟩ | h'
+    · exact ⟨cs', ps', h'⟩
+    · exfalso
+      -- everything arrived: the channel contents have full length, the loop cannot still wait
+      have hq1 : ∀ p, (1 ≤ p ∧ p ≤ c.n) ∧ p ≠ c.self →
+          genCast1 c p ∈ (runCb (bcastCb c (some c.t)) {} d1).queue := fun p hp =>
+        bcast_complete c (some c.t) (genCast1 c) (fun _ => rfl) (fun q _ => genCast1_valid c q) d1
+          hf.honest1 {} (by simp) p ((isMember_iff c p).mpr hp.1) (hall p hp).1
+      have hqp : ∀ p, (1 ≤ p ∧ p ≤ c.n) ∧ p ≠ c.self →
+          genP2P c p ∈ (runCb (p2pCb c) {} dp).queue := fun p hp =>
+        p2p_complete c (genP2P c) (fun _ => rfl) (fun q _ => genP2P_valid c q) dp
+          hf.honestP {} (by simp) p ((isMember_iff c p).mpr hp.1) (hall p hp).2
+      have hc1 : c.n ≤ (castsOf evs).length := by
+        have := length_ge_of_covers c.n ((castsOf evs).map (·.sender)) (by
+          intro p hp
+          by_cases hps : p = c.self
+          · exact List.mem_map.mpr ⟨genCast1 c c.self, hev1.mem_iff.mpr List.mem_cons_self, hps ▸ rfl⟩
+          · exact List.mem_map.mpr ⟨genCast1 c p,
+              hev1.mem_iff.mpr (List.mem_cons_of_mem _ (hq1 p ⟨hp, hps⟩)), rfl⟩)
+        simpa using this
+      have hcp : c.n - 1 ≤ (p2psOf evs).length := by
+        have := length_ge_of_covers_others c.n c.self hself ((p2psOf evs).map (·.sender)) (by
+          intro p hp
+          exact List.mem_map.mpr ⟨genP2P c p, hevp.mem_iff.mpr (hqp p hp), rfl⟩)
+        simpa using this
+      refine collect1_waiting_incomplete c.n evs [] [] _ _ ?_ h' ⟨by omega, by omega⟩
+      simp only [List.length_nil]
+      omega
+
+/-- **Round 2 returns exactly one cast from every node.** Same quantification; `q` is the channel
+content (own broadcast + queued casts) in any order. -/
+theorem round2_one_from_each_peer (c : Cfg) (hself : 1 ≤ c.self ∧ c.self ≤ c.n)
+    (d2 : List Msg) (hf : Fair2 c d2) (q : List Msg)
+    (hq : q.Perm (genCast2 c c.self :: (runCb (bcastCb c none) {} d2).queue)) :
+    (∀ r, collect2 c.n q = some r →
+      r.length = c.n ∧ (r.map (·.sender)).Nodup ∧ ∀ p, 1 ≤ p ∧ p ≤ c.n → genCast2 c p ∈ r) ∧
+    ((∀ p, (1 ≤ p ∧ p ≤ c.n) ∧ p ≠ c.self → genCast2 c p ∈ d2) → (collect2 c.n q).isSome) := by
+  obtain ⟨hnd, hm, hg⟩ := cast_list_facts c none (genCast2 c) (fun _ => rfl) hself d2
+    hf.notSelf hf.honest _ hq
+  obtain ⟨hlen, hcov⟩ := exact_cover c.n _ hnd hm
+  constructor
+  · intro r hr
+    unfold collect2 at hr
+    by_cases hge : q.length ≥ c.n
+    · simp only [hge, if_true, Option.some.injEq] at hr
+      have hql : q.length = c.n := by omega
+      have hr' : r = q := by rw [← hr, ← hql, List.take_length]
+      obtain ⟨_, hc⟩ := hcov q (List.prefix_refl q) hql
+      subst hr'
+      refine ⟨hql, hnd, fun p hp => ?_⟩
+      obtain ⟨m, hmq, hs⟩ := hc p hp
+      have := hg m hmq
+      rw [hs] at this; rw [← this]; exact hmq
+    · simp [hge] at hr
+  · intro hall
+    have hq2 : ∀ p, (1 ≤ p ∧ p ≤ c.n) ∧ p ≠ c.self →
+        genCast2 c p ∈ (runCb (bcastCb c none) {} d2).queue := fun p hp =>
+      bcast_complete c none (genCast2 c) (fun _ => rfl) (fun q _ => genCast2_valid c q) d2
+        hf.honest {} (by simp) p ((isMember_iff c p).mpr hp.1) (hall p hp)
+    have hc : c.n ≤ q.length := by
+      have := length_ge_of_covers c.n (q.map (·.sender)) (by
+        intro p hp
+        by_cases hps : p = c.self
+        · exact List.mem_map.mpr ⟨genCast2 c c.self, hq.mem_iff.mpr List.mem_cons_self, hps ▸ rfl⟩
+        · exact List.mem_map.mpr ⟨genCast2 c p,
+            hq.mem_iff.mpr (List.mem_cons_of_mem _ (hq2 p ⟨hp, hps⟩)), rfl⟩)
+      simpa using this
+    unfold collect2
+    simp [hc]
+
+end CharonV.FrostP2P
 
 /-! ### The executable scalar layer used by the correspondence driver (`Model/Fr.lean`) -/
 
